@@ -210,10 +210,9 @@ func generate(seed int64, tier string, search bool) []kase {
 		{proto: "dkls23", variants: []string{"softspoken,k256,sha256", "softspoken,p256,sha256", "softspoken,k256,sha512"}, count: 4 * mul, maxQ: 3, emptyOK: true},
 		{proto: "lindell22", variants: []string{"bip340,-", "mina,-", "schnorr-k256,sha256", "schnorr-k256-neg,sha256", "schnorr-p256,sha256", "schnorr-k256-le,sha512"}, count: 24 * mul, maxQ: 4, emptyOK: true},
 		{proto: "boldyreva", variants: []string{"short,basic", "short,aug", "short,pop", "long,basic", "long,aug", "long,pop"}, count: 24 * mul, maxQ: 5, emptyOK: true},
-		{proto: "cggmp21", variants: []string{"k256,sha256"}, count: cggmpCount(tier), maxQ: 2, emptyOK: true,
-			polFilter: func(a absPolicy) bool { return cggmpHas(a.text) }},
 	}
 	out := lindell17Cases(seed, lindell17Count(tier)*boolMul(search, 2))
+	out = append(out, cggmpCases(seed, cggmpCount(tier))...)
 	for si, sp := range specs {
 		var pols []absPolicy
 		for _, a := range absPolicies {
@@ -301,11 +300,13 @@ func evaluate(idx int, k kase) (o *outcome) {
 func main() {
 	if os.Getenv("C01_GENKEYS") != "" {
 		genL17Keys()
+		genCggmpKeys()
 		return
 	}
 	a := vh.ParseArgs()
 	if a.Tier == "thorough" && a.Replay == "" {
 		genL17Keys() // regenerate missing key material (never in the quick tier)
+		genCggmpKeys()
 	}
 	res := vh.NewResult("C01", a.Seed, a.Tier)
 	res.Rule = "full protocol runs of the real implementation (round functions driven through harness/internal/drive, every message through CBOR): " +
